@@ -20,7 +20,8 @@ FSM_GRAPH = {
     'OFF': {'SYNCHRONIZATION'},
     'SYNCHRONIZATION': {'OFF', 'ELECTION'},
     'ELECTION': {'OFF', 'SYNCHRONIZATION', 'DISTRIBUTION', 'SHUTTING_DOWN'},
-    'DISTRIBUTION': {'OFF', 'ELECTION', 'OPERATION', 'RESTARTING', 'SHUTTING_DOWN'},
+    # SYNCHRONIZATION: same reading as for CONCILIATION below (RESYNC strategy: documented return to SYNCHRONIZATION)
+    'DISTRIBUTION': {'OFF', 'SYNCHRONIZATION', 'ELECTION', 'OPERATION', 'RESTARTING', 'SHUTTING_DOWN'},
     'OPERATION': {'OFF', 'SYNCHRONIZATION', 'ELECTION', 'CONCILIATION', 'RESTARTING', 'SHUTTING_DOWN'},
     # ELECTION: the statement lists the returns to OFF, SYNCHRONIZATION and ELECTION for the working states
     # (see DESIGN.md, C02 and finding 19: the implementation's table lacked this edge and deadlocked)
